@@ -7,9 +7,9 @@
    (statics, lazily initialised globals, interior mutability, time, randomness, environment, process, hashers, addresses,
    threads, directory listings, unsafe, Debug formatting) EQUALS the justified list.  What is only OBSERVED (tools/props/c10.py):
    equality of all outputs and diagnostics across fresh processes, threads and in-process histories.
-   Only statements; each closed by a lemma of Proofs/HashOrderP.v / Proofs/HashOrderInv.v. *)
+   Only statements; each closed by a lemma of Proofs/HashOrderP.v / Proofs/HashOrderInv.v / Proofs/AmbientInv.v. *)
 From Coq Require Import NArith ZArith List Bool Permutation String.
-From CA Require Import Model.C10Tables Model.HashOrder Spec.HashOrderSpec Proofs.HashOrderP Proofs.HashOrderInv.
+From CA Require Import Model.C10Tables Model.HashOrder Spec.HashOrderSpec Proofs.HashOrderP Proofs.HashOrderInv Proofs.AmbientInv.
 Import ListNotations.
 
 (* ---- site src/util/symbol_format.rs format_recursive: children.iter().collect() + sort_by_key(|c| c.1.0) -------------
